@@ -12,6 +12,9 @@
 #define VERIF_ENV_EXPAND_H
 
 #ifdef VERIF_EXACT_LIBC
+char *vb_home, *vb_env_a;      /* HOME and $a of the tier B units (natively: mirrored into the process environment by the harness) */
+#endif
+#if defined(VERIF_EXACT_LIBC) && !defined(VERIF_NATIVE)   /* a native replay uses the real libc */
 /* byte i of a string, read as unsigned char (the comparison functions compare unsigned bytes) */
 #define VUCH(p, i) (((const unsigned char *) (p))[i])
 size_t strlen(const char *s)
@@ -85,7 +88,6 @@ char *strchr(const char *s, int c)
 }
 
 /* the environment of the tier B units: HOME -> vb_home, "a" -> vb_env_a (NULL = unset), nothing else set */
-char *vb_home, *vb_env_a;
 char *getenv(const char *name)
 {
     __CPROVER_assert(name != NULL, "getenv: name not NULL");
